@@ -33,7 +33,7 @@ ASSUMPTIONS = [
     "programs are the enumerated catalogue and its compositions (harness/catalog.py), including shared subtrees (x + x.T); "
     "which rewrites fire is decided by the real optimizer on each path; chunk sizes, bounds and data are universally quantified",
     "sliding-window kernel substitution is decided under C19, shuffle pushdown and nested-op fusion outside the catalogue are "
-    "not decided; dtype is not modelled",
+    "not decided; dtype: the advertised dtype of every form is compared, the computed values are exact reals (no rounding)",
 ]
 
 
@@ -62,7 +62,9 @@ def _body(E, w, prog):
         node = st[stage]
         whole, dsk, r = catalog.run_tree(E, node, node.chunks, stage, check_shapes=True)
         same_array(E, whole, prog.ref, label=f"{stage}-values", skolem=f"p{k}_")
+        E.ensure(f"{stage}-dtype", node.dtype == prog.node.dtype)
     s = st["simplified"]
+    E.ensure("simplified-dtype", s.dtype == prog.node.dtype)
     E.ensure("simplified-shape", AND(*[sum(a) == sum(b) for a, b in zip(s.chunks, prog.node.chunks)]) if len(s.chunks) == len(prog.node.chunks) else False)
 
 
